@@ -275,11 +275,11 @@ R.contract(
                     "forall(i, 0 <= i < len(clamped), is_none(clamped[i].op_idx) or not (some(clamped[i].op_idx) in blocked_ops))",
                     "forall(i, 0 <= i < len(clamped), clamped[i].delta == clip(gsum(plan.deltas, len(plan.deltas), ckey_of(clamped[i])), "
                     "  ctx.config.t4['novelty_cap_per_node']) and absr(clamped[i].delta) <= ctx.config.t4['novelty_cap_per_node'])"],
-        "scaled": ["forget:combined,after_cd", "ghost:lemma_scale_shrinks(scale)", INC % {"x": "scaled"}, PROPOSED % {"x": "scaled"}, "0 < scale and scale <= 1",
+        "scaled": ["forget-vars:combined,after_cd", "ghost:lemma_scale_shrinks(scale)", INC % {"x": "scaled"}, PROPOSED % {"x": "scaled"}, "0 < scale and scale <= 1",
                    "forall(i, 0 <= i < len(scaled), is_none(scaled[i].op_idx) or not (some(scaled[i].op_idx) in blocked_ops))",
                    "forall(i, 0 <= i < len(scaled), scaled[i].delta == clip(gsum(plan.deltas, len(plan.deltas), ckey_of(scaled[i])), "
                    "  ctx.config.t4['novelty_cap_per_node']) * scale and absr(scaled[i].delta) <= ctx.config.t4['novelty_cap_per_node'])"],
-        "approved": ["forget:clamped", "forall2(i, j, 0 <= i and i < j and j < len(approved), ckey_of(approved[i]) != ckey_of(approved[j]))",
+        "approved": ["forget-vars:clamped", "forall2(i, j, 0 <= i and i < j and j < len(approved), ckey_of(approved[i]) != ckey_of(approved[j]))",
                      PROPOSED % {"x": "approved"}, "len(approved) <= ctx.config.t4['churn_cap_edges']",
                      "forall(i, 0 <= i < len(approved), is_none(approved[i].op_idx) or not (some(approved[i].op_idx) in blocked_ops))",
                      "forall(i, 0 <= i < len(approved), approved[i].delta == clip(gsum(plan.deltas, len(plan.deltas), ckey_of(approved[i])), "
